@@ -1145,12 +1145,10 @@ class TaskPool:
 
         for itask in tasks:
             if itask.tdef.name in orphans:
-                if (
-                    itask.state(TASK_STATUS_WAITING)
-                    or itask.state.is_held
-                    or itask.state.is_queued
-                ):
-                    # Remove orphaned task if it hasn't started running yet.
+                if itask.state(TASK_STATUS_WAITING):
+                    # Remove orphaned task if it hasn't started running yet
+                    # (held and queued tasks that have not started are
+                    # waiting; a held task may well be active).
                     self.remove(itask, 'task definition removed')
                 else:
                     # Keep active orphaned task, but stop it from spawning.
